@@ -35,7 +35,17 @@ theorem precisionT_eq (k : Option Nat) (L : List Nat) (T : List (Nat × Q)) : pr
 /-- **C06:** recall -/
 theorem recallT_eq (k : Option Nat) (L : List Nat) (T : List (Nat × Q)) : recallT k L T = recall k L T := by
   unfold recallT recall good nrelCap
-  cases k <;> rfl
+  cases k with
+  | none => rfl
+  | some kk =>
+    first
+      | rfl
+      | (have h1 : min T.length kk = (if kk < T.length then kk else T.length) := by
+           by_cases h : kk < T.length
+           · simp [h]; omega
+           · simp [h]; omega
+         have h2 : min kk T.length = (if kk < T.length then kk else T.length) := by rw [Nat.min_comm]; exact h1
+         simp only [h1, h2])
 
 theorem firstTrue_trueIdxFrom (s : Nat) (bs : List Bool) : (trueIdxFrom s bs).head? = (firstTrue bs).map (· + s) := by
   induction bs generalizing s with
